@@ -87,6 +87,8 @@ class SymExec:
         if op["k"] == "const":
             if "val" in op:
                 return ("const", op["val"])
+            if op.get("fn"):
+                return ("fnitem", op["fn"])
             return ("constx", op.get("text"))
         return ("unknown", "operand")
 
@@ -229,13 +231,20 @@ class SymExec:
 
     def closure_pred(self, clo, depth):
         """apply a closure value to a fresh bound variable; returns ('lam', id, body)"""
-        if clo[0] != "closure":
+        if clo[0] not in ("closure", "fnitem"):
             return ("unknown", "not a closure")
         self.fresh = getattr(self, "fresh", 0) + 1
         vid = self.fresh
         return ("lam", vid, self.apply_closure(clo, [("elem", vid)], depth))
 
     def apply_closure(self, clo, params, depth):
+        if clo[0] == "fnitem":
+            from engine import strip_generics
+            want = strip_generics(clo[1])
+            fb = [b for p_, b in self.ctx.facts.bodies.items() if b.kind != "Closure" and strip_generics(p_) == want]
+            if len(fb) != 1:
+                return ("unknown", "function value %s" % clo[1])
+            return self.run(fb[0], list(params), depth + 1)
         if clo[0] != "closure":
             return ("unknown", "call of non-closure")
         cb = self.ctx.facts.by_dpath.get(clo[1])
@@ -289,6 +298,8 @@ class Eval:
         if k in ("field", "payload"):
             base = self.val(v[1], model, elem)
             idx = v[2] if k == "field" else v[3]
+            if k == "payload" and isinstance(base, tuple) and base and base[0] == "some":
+                return base[1]
             if isinstance(base, tuple):
                 return base[idx]
             if k == "payload":
@@ -310,6 +321,11 @@ class Eval:
             return ("some", e) if e in s else None
         if k == "is_some":
             return self.val(v[1], model, elem) is not None
+        if k == "isvariant":
+            x = self.val(v[1], model, elem)
+            if x is None or (isinstance(x, tuple) and x and x[0] == "some"):
+                return (1 if x is not None else 0) == v[2]
+            raise Unknown("discriminant of a non-option value")
         if k == "map_or":
             o = self.val(v[1], model, elem)
             if o is None:
